@@ -41,6 +41,17 @@ Step(e) ==
             /\ track' = e.frames /\ spf' = e.rate \div e.pf /\ stereo' = e.stereo
             /\ p' = [frame |-> 0, fs |-> 0] /\ sampleNo' = 0 /\ total' = 0 /\ bad' = bad
       [] e.ev = "play" -> PlayEv(e) /\ UNCHANGED <<track, spf, stereo>>
+      \* rewind() / set_frame(k): playback continues with the first sample of frame k (the envelope is reset through R13);
+      \* a frame that does not exist is refused and nothing changes
+      [] e.ev = "seek" ->
+            /\ LET valid == e.frame < Len(track) \/ (e.frame = 0 /\ e.ret)
+                   ok == e.ret = valid /\ e.log = (IF valid THEN << <<"w", 13, 0>> >> ELSE <<>>)
+               IN /\ p' = IF valid THEN [frame |-> e.frame, fs |-> 0] ELSE p
+                  /\ total' = IF valid THEN e.frame * spf ELSE total
+                  /\ IF ok THEN bad' = bad
+                     ELSE Report("play", [len |-> -1, ret |-> e.ret, wantret |-> valid, log |-> e.log, want |-> <<>>, frame |-> p.frame, fs |-> p.fs,
+                                          total |-> total, wanttotal |-> 0, ended |-> FALSE, outok |-> TRUE])
+            /\ UNCHANGED <<track, spf, stereo, sampleNo>>
       [] e.ev = "chunkings" ->
             /\ IF e.equal /\ e.samples_per_channel = e.frames * (e.rate \div 50) THEN bad' = bad
                ELSE Report("chunkings", [equal |-> e.equal, samples |-> e.samples_per_channel, want |-> e.frames * (e.rate \div 50)])
